@@ -89,12 +89,13 @@
         // kinds: 0 none, 1..=3 line k, 4..=6 span k-4
         let mut seqs: Vec<Vec<u8>> = vec![vec![]];
         let mut frontier: Vec<Vec<u8>> = vec![vec![]];
+        let thorough = std::env::var("VERIF_TIER").map_or(false, |t| t == "thorough");
         for _ in 0..7 {
             let mut next = Vec::new();
             for s in &frontier { for k in 0..7u8 { let mut t = s.clone(); t.push(k); next.push(t); } }
             seqs.extend(next.iter().cloned());
             frontier = next;
-            if seqs.len() > 150_000 { break; }
+            if seqs.len() > (if thorough { 1_000_000 } else { 150_000 }) { break; }
         }
         let mut checked = 0u64;
         for seq in &seqs {
